@@ -98,7 +98,9 @@ def _judge(res: core.Res, label: str, roots: List[str], extra: List[str], nconfi
         for ci, (hs, listing, reuse) in enumerate(CONFIGS[:nconfigs]):
             out = os.path.join(base, f'out{ci}')
             if reuse == 'reused':
-                rc0, err0 = _run(argv, out, '0', 'normal', epoch)      # the previous run's result is already there
+                # the result of a previous run is already there: of the same sources, documented under another (longer) project name, so that
+                # every page of this run is shorter than the file it replaces
+                rc0, err0 = _run(argv + ['--project-name=the-previous-run-documented-the-project-under-a-much-longer-name'], out, '0', 'normal', epoch)
             rc, err = _run(argv, out, hs, listing, epoch, TZS[ci % len(TZS)])
             res.c('runs')
             res.setadd('configurations', f'{hs}/{listing}/{reuse}')
